@@ -2,7 +2,7 @@
    from_radix_digits_be (chunked Horner), from_radix_be/le.
    The kernels of other areas are Section variables with their specifications as Section
    hypotheses; proofs/RadixInst.v instantiates them. *)
-From BigNum Require Import Base BaseLemmas AddSub AddSubProofs Div DivProofs SpecBytes BytesLemmas
+From BigNum Require Import Base BaseLemmas AddSub AddSubProofs Mul MulProofs Div DivProofs SpecBytes BytesLemmas
   Radix SpecRadix.
 Open Scope Z_scope.
 
@@ -20,7 +20,7 @@ Qed.
 Definition std_arms : list (Z * Z * Z) := [(48, 57, 0); (97, 122, 10); (65, 90, 10)].
 
 Definition radix_ok (p : radix_params) : bool :=
-  addsub_ok (rp_as p) && div_ok (rp_div p)
+  addsub_ok (rp_as p) && mul_ok (rp_mul p) && div_ok (rp_div p)
   && (rp_str_lo p =? 2) && (rp_str_hi p =? 36) && (rp_dig_lo p =? 2) && (rp_dig_hi p =? 256)
   && (rp_guard p =? 256)
   && cmpop_eqb (rp_big_len_cmp p) Cge && (rp_big_len p =? 64)
@@ -36,6 +36,7 @@ Proof. destruct a, b; simpl; congruence. Qed.
 
 Record radix_std (p : radix_params) : Prop := {
   rs_as : addsub_ok (rp_as p) = true;
+  rs_mul : mul_ok (rp_mul p) = true;
   rs_div : div_ok (rp_div p) = true;
   rs_str_lo : rp_str_lo p = 2; rs_str_hi : rp_str_hi p = 36;
   rs_dig_lo : rp_dig_lo p = 2; rs_dig_hi : rp_dig_hi p = 256;
